@@ -264,7 +264,7 @@ pub fn generate(tier: &str, seed: u64) -> Vec<String> {
     let nh = if thorough { 1500 } else { 150 };
     for _ in 0..nh {
         out.push("c07 hcfg".to_string());
-        let names = ["a", "b", "c", "g1", "zarr", "x.y"];
+        let names = ["a", "b", "c", "g1", "zarr", "x.y", "t__2m"];
         let mut paths: Vec<String> = vec!["/".to_string()];
         for _ in 0..rng.range(4, if thorough { 30 } else { 16 }) {
             let sel = rng.below(18);
